@@ -632,6 +632,8 @@ class Env:
 
     # parent ------------------------------------------------------------------
     def ev_deliver(self):
+        fr = _frames(self.outbuf)
+        self.last_delivered = fr[0] if fr else None
         if self.outq_times:
             self.outq_times.popleft()
         try:
